@@ -1178,6 +1178,40 @@ ecdsa_key_gen_le(ec_curve_p curve, uint8_t *rnd, size_t rnd_size,
 	return (0);
 }
 
+/* Hash -> integer.  ECDSA (SEC 1 4.1.3 step 5): the leftmost ceil(log2 n) bits of the hash;
+ * GOST R 34.10 (6.1 step 2): the whole hash, reduced modulo n by the caller. */
+static inline int
+ecdsa_hash_import_be(ec_curve_p curve, bn_p e, const uint8_t *hash, size_t hash_size) {
+	size_t nbits, take;
+
+	take = MIN(hash_size, EC_CURVE_CALC_BYTES(curve));
+	if (EC_CURVE_ALGO_ECDSA == curve->algo) {
+		nbits = bn_calc_bits(&curve->n);
+		take = MIN(hash_size, ((nbits + 7) / 8));
+		BN_RET_ON_ERR(bn_import_be_bin(e, hash, take));
+		if ((8 * take) > nbits) {
+			bn_r_shift(e, ((8 * take) - nbits));
+		}
+		return (0);
+	}
+	BN_RET_ON_ERR(bn_import_be_bin(e, hash, take));
+	return (0);
+}
+static inline int
+ecdsa_hash_import_le(ec_curve_p curve, bn_p e, const uint8_t *hash, size_t hash_size) {
+	size_t nbits, take;
+
+	take = MIN(hash_size, EC_CURVE_CALC_BYTES(curve));
+	BN_RET_ON_ERR(bn_import_le_bin(e, hash, take));
+	if (EC_CURVE_ALGO_ECDSA == curve->algo) {
+		nbits = bn_calc_bits(&curve->n);
+		if ((8 * take) > nbits) {
+			bn_r_shift(e, ((8 * take) - nbits));
+		}
+	}
+	return (0);
+}
+
 /* Signing */
 /* 
  * Input:
@@ -1298,7 +1332,7 @@ ecdsa_sign_be(ec_curve_p curve, uint8_t *hash, size_t hash_size,
 	BN_RET_ON_ERR(bn_init(&s, bits));
 	BN_RET_ON_ERR(bn_init(&d, bits));
 	/* HASH import. */
-	BN_RET_ON_ERR(bn_import_be_bin(&r, hash, MIN(hash_size, bytes)));
+	BN_RET_ON_ERR(ecdsa_hash_import_be(curve, &r, hash, hash_size));
 	/* Random number. */
 	BN_RET_ON_ERR(bn_import_be_bin(&s, rnd, bytes));
 	/* Key import. */
@@ -1337,7 +1371,7 @@ ecdsa_sign_le(ec_curve_p curve, uint8_t *hash, size_t hash_size,
 	BN_RET_ON_ERR(bn_init(&s, bits));
 	BN_RET_ON_ERR(bn_init(&d, bits));
 	/* HASH import. */
-	BN_RET_ON_ERR(bn_import_le_bin(&r, hash, MIN(hash_size, bytes)));
+	BN_RET_ON_ERR(ecdsa_hash_import_le(curve, &r, hash, hash_size));
 	/* Random number. */
 	BN_RET_ON_ERR(bn_import_le_bin(&s, rnd, bytes));
 	/* Key import. */
@@ -1481,7 +1515,7 @@ ecdsa_verify_be(ec_curve_p curve,
 	BN_RET_ON_ERR(ecdsa_pub_key_import_be(curve, pub_key_x, pub_key_y,
 	    pub_key_size, &Q));
 	/* Import Hash. */
-	BN_RET_ON_ERR(bn_import_be_bin(&e, hash, MIN(hash_size, bytes)));
+	BN_RET_ON_ERR(ecdsa_hash_import_be(curve, &e, hash, hash_size));
 	/* Import r.*/
 	BN_RET_ON_ERR(bn_import_be_bin(&r, sign_r, sign_size));
 	/* Import s.*/
@@ -1518,7 +1552,7 @@ ecdsa_verify_le(ec_curve_p curve,
 	BN_RET_ON_ERR(ecdsa_pub_key_import_le(curve, pub_key_x, pub_key_y,
 	    pub_key_size, &Q));
 	/* Import Hash. */
-	BN_RET_ON_ERR(bn_import_le_bin(&e, hash, MIN(hash_size, bytes)));
+	BN_RET_ON_ERR(ecdsa_hash_import_le(curve, &e, hash, hash_size));
 	/* Import r.*/
 	BN_RET_ON_ERR(bn_import_le_bin(&r, sign_r, sign_size));
 	/* Import s.*/
@@ -1657,7 +1691,7 @@ ecdsa_verify_priv_key_be(ec_curve_p curve,
 	BN_RET_ON_ERR(bn_init(&s, bits));
 	BN_RET_ON_ERR(bn_init(&d, bits));
 	/* Import Hash. */
-	BN_RET_ON_ERR(bn_import_be_bin(&e, hash, MIN(hash_size, bytes)));
+	BN_RET_ON_ERR(ecdsa_hash_import_be(curve, &e, hash, hash_size));
 	/* Import r.*/
 	BN_RET_ON_ERR(bn_import_be_bin(&r, sign_r, sign_size));
 	/* Import s.*/
@@ -1692,7 +1726,7 @@ ecdsa_verify_priv_key_le(ec_curve_p curve,
 	BN_RET_ON_ERR(bn_init(&s, bits));
 	BN_RET_ON_ERR(bn_init(&d, bits));
 	/* Import Hash. */
-	BN_RET_ON_ERR(bn_import_le_bin(&e, hash, MIN(hash_size, bytes)));
+	BN_RET_ON_ERR(ecdsa_hash_import_le(curve, &e, hash, hash_size));
 	/* Import r.*/
 	BN_RET_ON_ERR(bn_import_le_bin(&r, sign_r, sign_size));
 	/* Import s.*/
@@ -1962,7 +1996,7 @@ ecdsa_recover_pub_key_from_sign_be(ec_curve_p curve,
 		return (EINVAL);
 	/* HASH import. */
 	BN_RET_ON_ERR(bn_init(&e, bits));
-	BN_RET_ON_ERR(bn_import_be_bin(&e, hash, MIN(hash_size, bytes)));
+	BN_RET_ON_ERR(ecdsa_hash_import_be(curve, &e, hash, hash_size));
 	BN_RET_ON_ERR(bn_mod_reduce(&e, &curve->n, &curve->n_mod_rd_data));
 
 	BN_RET_ON_ERR(bn_init(&x, bits));
